@@ -3208,7 +3208,8 @@
   [pred &opt env local]
   (default env (fiber/getenv (fiber/current)))
   (def envs @[])
-  (do (var e env) (while e (array/push envs e) (set e (table/getproto e)) (if local (break))))
+  (def seen @{}) # a prototype chain can be cyclic
+  (do (var e env) (while (and e (not (in seen e))) (put seen e true) (array/push envs e) (set e (table/getproto e)) (if local (break))))
   (def ret-set @{})
   (loop [envi :in envs
          k :keys envi
